@@ -68,7 +68,7 @@ var allInvariants = []string{"TypeOK", "PartialOK", "FinishedOK", "Emit"}
 
 // exhaustive small scopes
 func tinyScope() scope {
-	return scope{2, 1, 2, 1, 2, 2, 2, "TinyAtoms", "CoreJoins", "TinyLeaves", "{0}", "CoreQuotes", "TinyLists", "CoreAtx",
+	return scope{2, 1, 2, 1, 2, 2, 2, "TinyAtoms", "CoreJoins", "TinyLeaves", "{0}", "TinyQuotes", "TinyLists", "TinyAtx",
 		"{TRUE}", "FlatWheel", "FlatAtomWheel", allInvariants}
 }
 func coreScope() scope {
@@ -233,15 +233,22 @@ func construct(in input) string {
 }
 
 // judge hands the recorded cases to JudgeMdDoc and turns every rejected relation into a Reject.
+// Cases owned by a "vacuity" input are corrupted recordings: the judge must reject exactly the
+// relation named in their Sig (and accept the one with an empty Sig).
 func (p *pipeline) judge(cases []caseRec, owners []input, keyOf func(in input, rel string, w int) string) error {
 	c := p.c
-	const batch = 8000
+	batch := c.Pick(20000, 16000)
+	par := c.Pick(4, 6)
+	vacGot := map[int]string{}
 	for lo := 0; lo < len(cases); lo += batch {
 		hi := lo + batch
 		if hi > len(cases) {
 			hi = len(cases)
 		}
-		bad, err := lib.Judge(c, "JudgeMdDoc", p.dir, "JudgeMdDoc", cases[lo:hi], 6, 12*time.Minute)
+		if d := os.Getenv("C36_DUMP_CASES"); d != "" {
+			os.WriteFile(fmt.Sprintf("%s/cases-%d.ndjson", d, lo), lib.NDJSON(cases[lo:hi]), 0o644)
+		}
+		bad, err := lib.Judge(c, "JudgeMdDoc", p.dir, "JudgeMdDoc", cases[lo:hi], par, 12*time.Minute)
 		if err != nil {
 			return err
 		}
@@ -254,6 +261,7 @@ func (p *pipeline) judge(cases []caseRec, owners []input, keyOf func(in input, r
 				return lib.Infra("judge rejected case %d without a reason: %v", lo+b.Index, b.Info)
 			}
 			seenRel := map[string]bool{}
+			var rels []string
 			for _, f := range fails {
 				t, _ := f.([]any)
 				if len(t) != 2 {
@@ -265,10 +273,30 @@ func (p *pipeline) judge(cases []caseRec, owners []input, keyOf func(in input, r
 					continue
 				}
 				seenRel[rel] = true
+				rels = append(rels, rel)
+				if in.Src == "vacuity" {
+					continue
+				}
 				p.inc("rejected_"+rel, 1)
 				c.Reject(keyOf(in, rel, int(w)), describe(in, rec, rel, int(w)), in)
 			}
+			if in.Src == "vacuity" {
+				vacGot[lo+b.Index] = strings.Join(rels, ",")
+			}
 		}
+	}
+	nv := 0
+	for i, in := range owners {
+		if in.Src != "vacuity" {
+			continue
+		}
+		nv++
+		if vacGot[i] != in.Sig {
+			return lib.Infra("vacuity guard: corrupted recording %q judged %q, expected %q", in.Name, vacGot[i], in.Sig)
+		}
+	}
+	if nv > 0 {
+		c.Set("vacuity_guard", fmt.Sprintf("%d corrupted recordings rejected for exactly the corrupted relation, the uncorrupted one accepted", nv-1))
 	}
 	return nil
 }
@@ -311,8 +339,8 @@ func run(c *lib.Ctx) error {
 		exh = coreScope()
 	}
 	sim := simScope()
-	nSim := c.Pick(4, 8)
-	perSim := c.Pick(120, 2500)
+	nSim := c.Pick(2, 6)
+	perSim := c.Pick(220, 3500)
 	c.Set("bounds", map[string]any{"exhaustive": exh.describe(), "random": sim.describe(),
 		"random_runs": nSim, "random_traces_per_run": perSim, "reflow_widths": reflowWidths})
 
@@ -323,7 +351,7 @@ func run(c *lib.Ctx) error {
 	wg.Add(1)
 	go func() {
 		defer wg.Done()
-		r, err := c.TLC("MCMdDoc exhaustive", lib.TLCRun{Dir: p.dir, Module: "MCMdDoc", Cfg: "gen.cfg", Workers: c.Pick(3, 6),
+		r, err := c.TLC("MCMdDoc exhaustive", lib.TLCRun{Dir: p.dir, Module: "MCMdDoc", Cfg: "gen.cfg", Workers: c.Pick(4, 6),
 			Timeout: time.Duration(c.Pick(4, 25)) * time.Minute, HeapGB: 6, Files: map[string][]byte{"gen.cfg": exh.cfg()}})
 		if err != nil {
 			errs[nSim] = err
@@ -443,10 +471,9 @@ func run(c *lib.Ctx) error {
 		}
 		return lib.Infra("%d generated documents are not what the model says (generator defect):\n  %s", n, strings.Join(p.defects, "\n  "))
 	}
+	vc, vo := vacuityCases()
+	cases, owners = append(cases, vc...), append(owners, vo...)
 	if err := p.judge(cases, owners, keyOf); err != nil {
-		return err
-	}
-	if err := vacuity(c, p); err != nil {
 		return err
 	}
 	for k, v := range p.stats {
@@ -463,12 +490,12 @@ func keyOf(in input, rel string, w int) string {
 	return rel + ":" + construct(in)
 }
 
-// vacuity corrupts one recorded field per relation and requires the judge to reject each.
-func vacuity(c *lib.Ctx, p *pipeline) error {
+// vacuityCases corrupts one recorded field per relation; the judge must reject each for that relation.
+func vacuityCases() ([]caseRec, []input) {
 	x := "a *b* c d e f g h i j k l m n o p q r s t u v w x y z\n\n- `q r`\n"
 	base, _, pn := record(0, "vacuity", x, reflowWidths)
 	if pn != nil {
-		return nil // reported elsewhere
+		return nil, nil // reported through the corpus of generated documents
 	}
 	mk := func(f func(r *caseRec)) caseRec {
 		b, _ := json.Marshal(base)
@@ -494,28 +521,11 @@ func vacuity(c *lib.Ctx, p *pipeline) error {
 			l.B = toBytes("a *b* c d e f g h i j")
 		}),
 	}
-	bad, err := lib.Judge(c, "JudgeMdDoc vacuity", p.dir, "JudgeMdDoc", cs, 1, 3*time.Minute)
-	if err != nil {
-		return err
-	}
-	got := make([]string, len(cs))
-	for _, b := range bad {
-		fails, _ := b.Info[0].([]any)
-		var rels []string
-		for _, f := range fails {
-			if t, ok := f.([]any); ok && len(t) == 2 {
-				rels = append(rels, fmt.Sprint(t[0]))
-			}
-		}
-		got[b.Index] = strings.Join(rels, ",")
-	}
+	var owners []input
 	for i := range cs {
-		if got[i] != want[i] {
-			return lib.Infra("vacuity guard: corrupted case %d judged %q, expected %q", i, got[i], want[i])
-		}
+		owners = append(owners, input{Src: "vacuity", Name: fmt.Sprintf("vacuity:%d", i), Text: x, Sig: want[i]})
 	}
-	c.Set("vacuity_guard", "5 corrupted recordings rejected, the uncorrupted one accepted")
-	return nil
+	return cs, owners
 }
 
 func replay(c *lib.Ctx, p *pipeline) error {
